@@ -346,35 +346,12 @@ func configVariablesFlow(c *an.Ctx, rule string) {
 	load := p.Func("internal/config", "Loader", "Load")
 	glob := p.Func("internal/config", "Loader", "LoadGlobalConfig")
 	bfd := p.Func("internal/config", "", "buildFromDefinition")
-	for _, f := range []*ssa.Function{load, glob} {
-		if f == nil {
-			continue
-		}
-		n := 0
-		for _, ci := range p.CallSitesOf(mg) {
-			if ci.Parent() != f {
-				continue
-			}
-			n++
-			// argument is the configuration built from the definition
-			fromDef := false
-			for _, src := range an.Sources(ci.Common().Args[1]) {
-				if e, ok := src.(*ssa.Extract); ok {
-					if call, ok := e.Tuple.(*ssa.Call); ok {
-						for _, callee := range p.Callees(&call.Call) {
-							if callee == bfd {
-								fromDef = true
-							}
-						}
-					}
-				}
-			}
-			recv := an.FieldProv(ci.Common().Args[0])
-			c.Check(fromDef && recv == "Loader.dst", rule, an.Short(f)+":merge", ci.Pos(), "the built configuration is merged into the loader's destination", "merge is not applied to (Loader.dst, built configuration)")
-		}
-		if n == 0 && f == load {
-			c.Bad(rule, an.Short(f)+":merge", f.Pos(), "Load never merges the project configuration into the destination")
-		}
+	// (decided on the Load trace: wherever the phases are called from)
+	if load != nil {
+		loadPipeline(c, rule, load, map[string]bool{"merge": true}, false)
+	}
+	if glob != nil {
+		loadPipeline(c, rule, glob, map[string]bool{"merge": true}, true)
 	}
 	if bfd != nil {
 		good := false
